@@ -64,7 +64,7 @@ theorem u16_and_7fff (a : UInt16) : (a &&& 0x7fff) &&& 0x7fff = a &&& 0x7fff := 
 
 
 theorem deleteSPIs_marshal (spis : List UInt32) (bs : Bytes) (h : marshalDeleteSPIs 4 spis = .ok bs) :
-    deleteSPIs bs = spis ∧ bs.length = 4 * spis.length := by
+    deleteSPIs spis.length bs = .ok spis ∧ bs.length = 4 * spis.length := by
   induction spis generalizing bs with
   | nil => simp [marshalDeleteSPIs] at h; subst h; simp [deleteSPIs]
   | cons v rest ih =>
@@ -79,10 +79,6 @@ theorem deleteSPIs_marshal (spis : List UInt32) (bs : Bytes) (h : marshalDeleteS
       omega
     | err => simp [hr] at h
     | fault => simp [hr] at h
-
-
-
-
 
 /-- Delete in the encodable domain: (SPI size 0, no SPIs) or (SPI size 4, count = number of SPIs) -/
 theorem rt_delete (proto spiSize : UInt8) (num : UInt16) (spis : List UInt32) (bs : Bytes)
@@ -122,9 +118,11 @@ theorem rt_delete (proto spiSize : UInt8) (num : UInt16) (spis : List UInt32) (b
           have hnum : be16 (byteAt (proto :: 4 :: (put16 num ++ body)) 2) (byteAt (proto :: 4 :: (put16 num ++ body)) 3) = num := by
             simp [put16, be16_put]
           rw [hb1, hnum, e4]
-          rw [if_neg (by len_omega)]
+          rw [if_neg (by len_omega), if_neg (by simp)]
           go_steps
-          simp [put16, d1]
+          have hd : List.drop 4 (proto :: 4 :: (put16 num ++ body)) = body := by simp [put16]
+          rw [hd, ← hn, d1]
+          simp
         | err => simp [hm] at h
         | fault => simp [hm] at h
       · rw [if_neg hz] at h
@@ -140,9 +138,6 @@ theorem rt_delete (proto spiSize : UInt8) (num : UInt16) (spis : List UInt32) (b
         subst h
         unfold unmarshalDelete
         simp [goIndex, goU16, goFrom, be16, put16, deleteSPIs]
-
-
-
 
 /-- one attribute in front of anything parses back to itself -/
 theorem parseCPAttr_marshal (a : CPAttr) (rest : Bytes) (hv : a.value.length ≤ 0xFFFF) (ht : a.atype.toNat < 32768) :
